@@ -68,9 +68,15 @@ def run(prog: Program, rep: Report, tier: str):
                         loads.append((n, x))
         rep.decide(bool(loads), "G8.lookup-or-load", fi, "load-exists", "the wrapped dataset is read on the miss path",
                    "the wrapped dataset is never read", clause="C19.1", nontrivial=False)
+        def conj(cs):
+            out = []
+            for c_ in cs:
+                out += list(c_[1]) if c_[0] == "and" else [c_]
+            return out
+
         for n, x in loads:
             key = fa.sym.term(x.slice, n)
-            conds = fa.conds_at(n)
+            conds = conj(fa.conds_at(n))
             ok = key == K and miss in conds
             rep.decide(ok, "G8.lookup-or-load", fi, "load-under-miss", "self.dataset[idx] only under 'idx not in cache'",
                        (f"the wrapped dataset is read with key {show(key)} instead of the index parameter" if key != K else
@@ -92,7 +98,7 @@ def run(prog: Program, rep: Report, tier: str):
                        "loaded again on the next access, or stored under another key / another value is stored)",
                        line=x.lineno, clause="C19.1")
         for n, t in rets:
-            conds = fa.conds_at(n)
+            conds = conj(fa.conds_at(n))
             ok = None
             if t is None:
                 ok = False
@@ -109,7 +115,21 @@ def run(prog: Program, rep: Report, tier: str):
                 ok = True
                 why = "returns the loaded value on a miss and cache[idx] on a hit"
                 for d, s in srcs:
-                    dc = fa.conds_at(d) + conds
+                    dc = conj(fa.conds_at(d)) + conds
+                    got = s is not None and s[0] == "call" and s[1] == ("attr", cache, "get") and s[2] and s[2][0] == K and (
+                        len(s[2]) == 1 or s[2][1] == ("const", None))
+                    if got:
+                        # cache.get(idx): the entry on a hit, None on a miss - fine when the path is a hit: 'idx in cache', or
+                        # 'value is not None or idx in cache' (a stored None is still a hit)
+                        is_hit = hit in dc or any(c_[0] == "or" and hit in c_[1] and all(
+                            d_ == hit or (d_[0] == "not" and d_[1][0] == "is") for d_ in c_[1]) for c_ in dc)
+                        if not is_hit:
+                            ok, why = False, ("the value of cache.get(idx) is returned on a path that is not known to be a hit: a "
+                                              "missing key yields None instead of the sample" if not any(
+                                                  c_[0] == "not" and c_[1][0] == "is" for c_ in dc) else
+                                              "'cache.get(idx) is not None' is taken for a hit: a cached None counts as a miss and "
+                                              "is loaded again on every access")
+                        continue
                     if s == ("sub", ("self", "dataset"), K):
                         if miss not in dc:
                             ok, why = False, "a value read from the wrapped dataset is returned on a path that is not a miss"
